@@ -122,9 +122,16 @@ type Capture struct {
 	mu   sync.Mutex
 	msgs [][]byte
 	n    int
+	// Gate, when set, is called at the start of every Write (before the bytes are recorded), outside the
+	// capture's own lock: a harness can hold bio-rd inside its connection write to widen the window between
+	// "dequeued" and "on the wire".
+	Gate func(b []byte)
 }
 
 func (c *Capture) Write(b []byte) (int, error) {
+	if g := c.Gate; g != nil {
+		g(b)
+	}
 	c.mu.Lock()
 	c.msgs = append(c.msgs, append([]byte(nil), b...))
 	c.n++
